@@ -795,6 +795,7 @@ let () = register "c04" (fun line ->
     match Migrate.abs c04_slot final (bytes_of_hex hk) with
     | Some v -> Some (hk ^ "=" ^ c04_render v)
     | None -> None) ks in
+  let data = if Array.exists (fun x -> x = "cps") f then ["stored-compressed"] else data in
   S.concat " ; " (L.rev !replies) ^ " || " ^ S.concat " " (L.sort compare data) ^ " || " ^ S.concat "," (L.rev !execs)
   ^ " || redirected-to-client=0 lost-or-duplicated-keys=0"
   ^ (if f.(2) = "2" then " sent-to-a-node-that-does-not-own-the-slot=0" else ""))
